@@ -32,6 +32,9 @@ EXPLANATION = (
     "exit; exactly one buffer is created for an element with fill; the buffering mode check raises LenaValueError; "
     "FillRequestSeq runs through FillRequest(self, **kwargs).run and its request() post-processes "
     "self._fill_request.request() with self._after.  "
+    "FillRequest.fill increments its counter only after the element's fill returned (a refused value is not counted), and "
+    "flow_to_iter -- on whose one-shot iterator the block-wise islice/next consumption rests -- returns its argument unchanged only "
+    "where it has a next method.  "
     "Does not decide the equality of concatenated request() results with run (counter arithmetic over histories), nor "
     "wall-clock bounds.")
 RULES = {
@@ -593,6 +596,14 @@ def check_fill_request_methods(ctx):
                   "buffer: a value is either filled and counted once, or appended to the input buffer once" % (
                       p.describe(4), len(fills), len(incs), len(bufs)),
                   detail="FillRequest.fill [%s]: value accounted once" % p.describe(3), construct="fill-once:" + p.describe(4), path=p)
+        if ok and fills and incs:
+            # counted only once accepted: the element's fill may refuse the value (LenaStopFill, an error the caller skips)
+            fi = [i for i, c in p.calls() if c is fills[0]][0]
+            ctx.check("C16-d", p.index(incs[0]) > fi, incs[0], "FillRequest.fill counts the value before the element has accepted it (`%s` "
+                      "precedes `%s`) [%s]: when the element's fill raises (LenaStopFill in a Split branch, a bad value the caller "
+                      "skips) the refused value stays counted, the next request() yields for a block of bufsize-1 values and every "
+                      "later block boundary is shifted" % (A.short(incs[0], 30), A.short(fills[0], 30), p.describe(3)),
+                      detail="counter incremented after the element accepted the value", construct="count-after-accept", path=p)
         if bufs:
             lits = p.literal_srcs()
             ctx.check("C16-d", "self._buffer_input" in lits, fill, "FillRequest.fill buffers the input although _buffer_input is not "
@@ -830,6 +841,9 @@ def _deref_path(p, expr):
 
 
 def check(ctx):
+    K.check_flow_to_iter(ctx, "C16-c", "FillRequest._run_fill_compute / _run_run take the flow block by block with islice(flow, bufsize) and "
+                         "next(flow): on a re-iterable every islice starts from the beginning again, the first block is processed for ever "
+                         "and later values are never reached")
     check_self_feed(ctx)
     check_drain_clear(ctx)
     check_bounded(ctx)
@@ -850,6 +864,9 @@ VARIANTS = [
     # one fill per value
     M("fc-first-value-dropped", ADPF, "            else:\n                self._el_fill(val)\n                nfills += 1\n\n            for val in slice_:", "            else:\n                nfills += 1\n\n            for val in slice_:", ["C16-d"]),
     M("fc-fill-twice", ADPF, "            for val in slice_:\n                self._el_fill(val)\n                nfills += 1", "            for val in slice_:\n                self._el_fill(val)\n                self._el_fill(val)\n                nfills += 1", ["C16-d"]),
+    M("flow-to-iter-keeps-reiterables", "lena/core/functions.py", "    if ((sys.version_info.major == 3 and hasattr(flow, \"__next__\"))\n        or (sys.version_info.major == 2 and hasattr(flow, \"next\"))):\n        return flow\n    else:\n        return iter(flow)",
+      "    if isinstance(flow, (list, tuple)):\n        return iter(flow)\n    return flow", ["C16-c"]),
+    M("fill-counted-before-accepted", ADPF, "        self._el_fill(value)\n        self._n_count += 1", "        self._n_count += 1\n        self._el_fill(value)", ["C16-d"]),
     M("fill-not-counted", ADPF, "        self._el_fill(value)\n        self._n_count += 1", "        self._el_fill(value)", ["C16-d"]),
     M("fill-buffered-and-filled", ADPF, "                self._buffer_in.append(value)\n                return", "                self._buffer_in.append(value)", ["C16-d"]),
     M("fill-count-by-two", ADPF, "        self._el_fill(value)\n        self._n_count += 1", "        self._el_fill(value)\n        self._n_count += 2", ["C16-d"]),
